@@ -311,14 +311,17 @@ Proof. vm_compute. reflexivity. Qed.
 (* the full-strength reading "the winner has the (weakly) best score among candidates with a number for a
    score" is therefore false of the faithful model; the partial statement that holds is C11_argmax_first *)
 Theorem C11_best_score_refuted :
-  exists cdf ff UV base c e i,
-    gen_select_copula cdf ff UV base = Ok c /\ gen_compute_empirical UV base = Ok e /\
+  exists cdf ff UV base c i,
+    gen_select_copula cdf ff UV base = Ok c /\
     nth_error (gen_candidates (1#2) (Finite 5)) i = Some c /\
-    nth_error (gen_scores cdf (gen_candidates (1#2) (Finite 5)) e) i = Some None.
+    match gen_compute_empirical UV base with
+    | Ok e => nth_error (gen_scores cdf (gen_candidates (1#2) (Finite 5)) e) i = Some None
+    | Err _ => False
+    end.
 Proof.
   exists (fun c z => match fam c with Gumbel => None | _ => Some (z * z) end),
-         (Some (1#2, Finite 5)), demo_UV, demo_base, (mk Gumbel (1#2) (Finite 2)).
-  eexists. exists 2%nat. vm_compute. repeat split; reflexivity.
+         (Some (1#2, Finite 5)), demo_UV, demo_base, (mk Gumbel (1#2) (Finite 2)), 2%nat.
+  split; [vm_compute; reflexivity|]. split; vm_compute; reflexivity.
 Qed.
 
 (* ties in the score go to the earliest candidate *)
